@@ -20,7 +20,7 @@ LEVEL_TEXT = ("Held on every (generated graph, retained start, message, mode) ca
               "all 65 536 of them x thresholds x every retained start.")
 LEVEL_NOTE = ("Graphs come from the library's own generator (the property is about what it returns); C03 checks that generator. "
               "The quotient probe reads the local variable named in the property's anchors and is evidence only.")
-PLAN = {"quick": dict(shards=16, budget=100), "thorough": dict(shards=32, budget=600)}
+PLAN = {"quick": dict(shards=16, budget=100), "thorough": dict(shards=16, budget=600)}
 EXHAUSTIVE = []
 RULE = ("encode(m, CountingAccessor(G), v, mode) for G = connect_coding_graph(k, mask, t): order-2 masks (quick: a 1/16 sample, "
         "thorough: all 65 536) x t = 1..4 x every retained start; random / cycle-seeded / filter masks for k = 1,3,4(,5,6) "
